@@ -13,17 +13,31 @@ UVar(w) == << [i \in 1..w |-> 0], [i \in 1..w |-> IF i = w THEN 1 ELSE 0], [i \i
 BcdVar == << <<36, 16, 1, 35, 89, 89>>, <<0, 1, 1, 0, 0, 0>>, <<153, 18, 49, 0, 0, 1>>, <<37, 2, 40, 18, 0, 48>>, <<32, 7, 7, 25, 35, 89>> >>
 StrVar == << <<>>, <<65>>, <<49, 50, 55, 46, 48, 46, 48, 46, 49>>, <<126, 125, 32, 47>>, [i \in 1..40 |-> 96 + (i % 26)] >>
 RestVar == << <<>>, <<1>>, <<126, 125, 0, 255>>, <<48, 49, 99, 100>>, [i \in 1..30 |-> i] >>
+TextVar(mx) == << <<>>, <<65>>, Mat([i \in 1..(IF mx < 8 THEN mx ELSE 8) |-> 48 + i]), Mat([i \in 1..mx |-> 64 + i]), <<126, 125>> >>
+FStrVar(w) == << <<>>, <<65>>, Mat([i \in 1..w |-> 48 + (i % 10)]), (IF w >= 2 THEN <<126, 125>> ELSE <<126>>), Mat([i \in 1..(w \div 2) |-> 97 + (i % 26)]) >>
 NVariants == 5
 
 RECURSIVE ValueOf(_, _, _)
+RECURSIVE Fix(_, _)
 \* value of layout L where the field at (flat) position pick gets variant var, all others variant base
 Variant(f, var) == CASE f.k = "u" -> UVar(f.w)[var] [] f.k = "raw" -> UVar(f.w)[var] [] f.k = "bcd" -> BcdVar[var]
                      [] f.k = "lstr" -> StrVar[var] [] f.k = "rest" -> RestVar[var]
+                     [] f.k = "fstr" -> FStrVar(f.w)[var] [] f.k = "trest" -> TextVar(f.mx)[var] [] f.k = "reclen" -> UVar(f.w)[1]
+                     [] f.k = "items" -> LET c == (var - 1) % (MaxList + 1) IN
+                                         Mat([i \in 1..(IF c < f.min THEN f.min ELSE c) |-> ValueOf(f.item, 0, ((var + i) % NVariants) + 1)])
                      [] f.k \in {"ulist", "optulist"} -> Mat([i \in 1..((var - 1) % (MaxList + 1)) |-> UVar(f.w)[((var + i) % NVariants) + 1]])
                      [] f.k = "list" -> Mat([i \in 1..((var - 1) % (MaxList + 1)) |-> ValueOf(f.item, 0, ((var + i) % NVariants) + 1)])
 ValueOf(L, pick, var) ==
     [n \in {L[i].n : i \in 1..Len(L)} |->
         LET i == CHOOSE j \in 1..Len(L) : L[j].n = n IN Variant(L[i], IF pick = 0 \/ pick = i THEN var ELSE 1)]
+\* derived fields (separate counts, record lengths) are made consistent with what they describe
+Fix(L, v) ==
+    LET fld(n) == CHOOSE i \in 1..Len(L) : L[i].n = n
+        v1 == [n \in DOMAIN v |-> IF L[fld(n)].k \in {"items", "list"}
+                                   THEN Mat([j \in 1..Len(v[n]) |-> Fix(L[fld(n)].item, v[n][j])]) ELSE v[n]]
+        v2 == [n \in DOMAIN v1 |-> IF \E i \in 1..Len(L) : L[i].k = "items" /\ L[i].cn = n
+                                    THEN UBytes(Len(v1[L[CHOOSE i \in 1..Len(L) : L[i].k = "items" /\ L[i].cn = n].n]), L[fld(n)].w) ELSE v1[n]]
+    IN [n \in DOMAIN v2 |-> IF L[fld(n)].k = "reclen" THEN UBytes(Len(Enc(SubSeq(L, fld(n) + 1, Len(L)), v2)), L[fld(n)].w) ELSE v2[n]]
 
 \* ---- terminal parameter sets: every table id alone, reserved / vendor ids, neighbours in pairs, everything at once
 ParamContentOf(id) == LET w == ParamWidth(id) IN
@@ -45,13 +59,16 @@ Next == /\ pick = 0 /\ var = 1 /\ t # "P0x8103"
 IsParams == t = "P0x8103"
 PSet == SetToSeq(ParamSets)[pick]
 L == IF IsParams THEN <<>> ELSE LayoutOf[t]
-V == IF IsParams THEN <<>> ELSE ValueOf(L, pick, var)
+V == IF IsParams THEN <<>> ELSE Fix(L, ValueOf(L, pick, var))
 RoundTrips == IsParams \/ (RT1(L, V) /\ RT2(L, Enc(L, V)))
 \* a flattened description of the value for the bridge: fields in wire order with kind, bytes / items
 RECURSIVE Describe(_, _)
 Describe(lay, v) == Mat([i \in 1..Len(lay) |->
     LET f == lay[i] IN
-    CASE f.k \in {"u", "raw", "bcd", "rest"} -> [n |-> f.n, k |-> f.k, b |-> v[f.n]]
+    CASE f.k \in {"u", "raw", "bcd", "rest", "fstr"} -> [n |-> f.n, k |-> f.k, b |-> v[f.n]]
+      [] f.k = "trest" -> [n |-> f.n, k |-> "rest", b |-> v[f.n]]
+      [] f.k = "reclen" -> [n |-> f.n, k |-> "u", b |-> v[f.n]]
+      [] f.k = "items" -> [n |-> f.n, k |-> "items", items |-> Mat([j \in 1..Len(v[f.n]) |-> Describe(f.item, v[f.n][j])])]
       [] f.k = "lstr" -> [n |-> f.n, k |-> f.k, ln |-> f.ln, b |-> v[f.n]]
       [] f.k \in {"ulist", "optulist"} -> [n |-> f.n, k |-> "ulist", cn |-> f.cn, cw |-> f.cw, items |-> v[f.n]]
       [] f.k = "list" -> [n |-> f.n, k |-> f.k, cn |-> f.cn, cw |-> f.cw, items |-> Mat([j \in 1..Len(v[f.n]) |-> Describe(f.item, v[f.n][j])])]])
